@@ -272,7 +272,27 @@ impl Reader {
 		loop {
 			// When < HEADER_SIZE bytes remain, discard them (padding) and read next block
 			if self.buffer_remaining() < WAL_RECORD_HEADER_SIZE {
+				// Fewer bytes than a header are legitimate only as the padding that closes
+				// a FULL block. At the end of a short final block they are the beginning of
+				// a record whose write was cut off. Report them instead of treating them as
+				// a clean end of the log: otherwise nothing repairs the segment and the
+				// next session appends its records behind the torn bytes, where no reader
+				// will ever find them.
+				if self.eof && self.buffer_remaining() > 0 && self.buffer.len() < BLOCK_SIZE {
+					return Err(Error::IO(IOError::new(
+						io::ErrorKind::Other,
+						"truncated record header at end of file",
+					)));
+				}
 				if !self.read_more()? {
+					// The same holds for a record whose first fragments are there but whose
+					// last fragment never made it to the file.
+					if fragment_index > 0 {
+						return Err(Error::IO(IOError::new(
+							io::ErrorKind::Other,
+							"truncated record at end of file: last fragment missing",
+						)));
+					}
 					return Err(Error::IO(IOError::new(
 						io::ErrorKind::UnexpectedEof,
 						"reached end of file",
